@@ -475,8 +475,17 @@ impl<'a> IRCodeGen<'a> {
             S::Assignment { op, target, value, .. } => {
                 let res = self.var();
                 let (pre_code, current, post_code) = match &target {
+                    // `x += e` is `x = x + e`: x is read before e is evaluated, as for fields. A
+                    // literal or a plain variable cannot change x, so no copy is spent on those.
+                    E::Read { var, .. }
+                        if matches!(
+                            value,
+                            E::Int(..) | E::Float(..) | E::Str(..) | E::Bool(..) | E::Read { .. }
+                        ) =>
+                    {
+                        (Vec::new(), Var(*var), vec![IR::Assign(Var(*var), res)])
+                    }
                     E::Read { var, .. } => {
-                        // `x += e` is `x = x + e`: x is read before e is evaluated, as for fields.
                         let current = self.var();
                         (
                             vec![IR::Copy(current, Var(*var))],
